@@ -186,6 +186,20 @@ class Aff:
         a, b = self._cmp(o)
         return a >= b
 
+    def __eq__(self, o):
+        # a branch on data is exactly what linearity forbids: constants compare, symbolic values raise
+        if isinstance(o, Aff):
+            return self.value() == o.value()
+        if isinstance(o, _NUM):
+            return self.value() == complex(o)
+        return NotImplemented
+
+    def __ne__(self, o):
+        r = self.__eq__(o)
+        return r if r is NotImplemented else not r
+
+    __hash__ = object.__hash__
+
     def __bool__(self):
         return bool(self.value())
 
@@ -564,7 +578,9 @@ def top_row_query(sp, lhs, rhs, tol_abs):
 
 
 def model_values(model, box, sp):
-    """variable name -> float from a z3 model (0 for unconstrained)."""
+    """variable name -> float from a z3 model (0 for unconstrained), rescaled so that the
+    largest magnitude is 1: the compared forms are homogeneous in the data, so the scaled
+    assignment separates them just as well and is not lost in rounding during replay."""
     out = {}
     for j in range(1, sp.dim):
         x = box.vars.get(j)
@@ -573,6 +589,9 @@ def model_values(model, box, sp):
             mv = model.eval(x, model_completion=True)
             v = float(mv.numerator_as_long()) / float(mv.denominator_as_long())
         out[sp.names[j]] = v
+    m = max([abs(v) for v in out.values()] or [0.0])
+    if m > 0:
+        out = {k: v / m for k, v in out.items()}
     return out
 
 
